@@ -8,6 +8,7 @@ package main
 import (
 	"bytes"
 	"context"
+	"errors"
 	"fmt"
 	"os"
 	"os/exec"
@@ -38,7 +39,12 @@ type sink struct {
 	calls []sinkCall
 	now   *int
 	slow  bool // concurrent drivers: every sink call contains a scheduling point
+	// failSync: Sync is recorded and then reports an error while Write works (stdout on a terminal or pipe
+	// answers EINVAL): the syncer has to hand the error on and carry on flushing
+	failSync bool
 }
+
+var errSinkSync = errors.New("sync not supported by this sink")
 
 func (s *sink) Write(p []byte) (int, error) {
 	if s.slow {
@@ -55,6 +61,9 @@ func (s *sink) Sync() error {
 	}
 	*s.now++
 	s.calls = append(s.calls, sinkCall{sync: true, at: *s.now})
+	if s.failSync {
+		return errSinkSync
+	}
 	return nil
 }
 
@@ -96,11 +105,12 @@ const (
 var opNames = [...]string{"W0", "W1", "Wfree-1", "Wfree", "Wfree+1", "WSize", "WSize+1", "W2Size+1", "Sync", "Tick", "Stop"}
 
 type seqRun struct {
-	size int
-	ops  []int
-	err  string
-	key  string // known-finding key, if the failure has one
-	end  string
+	failSync bool
+	size     int
+	ops      []int
+	err      string
+	key      string // known-finding key, if the failure has one
+	end      string
 	// counters
 	crashPoints int
 }
@@ -122,7 +132,7 @@ func (r *seqRun) fail(key, format string, a ...any) {
 
 func (r *seqRun) body() {
 	now := 0
-	sk := &sink{now: &now}
+	sk := &sink{now: &now, failSync: r.failSync}
 	clk := &clock{ch: make(chan time.Time, 1)}
 	ws := &zapcore.BufferedWriteSyncer{WS: sk, Size: r.size, Clock: clk, FlushInterval: time.Hour}
 	size := effSize(r.size)
@@ -225,8 +235,8 @@ func (r *seqRun) body() {
 			bounds[len(accepted)] = true
 			initialized = true
 		case op == oSync:
-			if err := ws.Sync(); err != nil {
-				r.fail("", "step %d: Sync returned %v", step, err)
+			if err := ws.Sync(); (err != nil) != r.failSync {
+				r.fail("", "step %d: Sync returned %v (the sink's Sync fails: %v)", step, err, r.failSync)
 			}
 			flushed(step, "Sync", "")
 		case op == oTick:
@@ -244,7 +254,7 @@ func (r *seqRun) body() {
 			}
 			flushed(step, "a processed flush tick", "")
 		case op == oStop:
-			if err := ws.Stop(); err != nil {
+			if err := ws.Stop(); err != nil && !(r.failSync && initialized && !stopped) {
 				r.fail("", "step %d: Stop returned %v", step, err)
 			}
 			if initialized && !stopped {
@@ -286,8 +296,10 @@ func seqName(ops []int) string {
 }
 
 // one sequential execution under the scheduler
+var seqFailSync bool // set per item (seqf|...): the sink's Sync reports an error
+
 func runSeq(size int, ops []int) (*seqRun, *mc.Violation) {
-	r := &seqRun{size: size, ops: ops}
+	r := &seqRun{size: size, ops: ops, failSync: seqFailSync}
 	res := vsched.Run(nil, r.body)
 	switch res.Verdict {
 	case vsched.OK:
@@ -317,6 +329,7 @@ func keyTag(k string) string {
 // item: seq|size|depth|first-op,second-op
 func seqItem(item string, replay []int, isReplay bool) mc.ItemResult {
 	f := strings.Split(item, "|")
+	seqFailSync = f[0] == "seqf"
 	size, _ := strconv.Atoi(f[1])
 	depth, _ := strconv.Atoi(f[2])
 	var pre []int
@@ -866,7 +879,7 @@ func runCrash(run *ev.Run, workdir string, cases []crashCase) (children, points 
 
 func handler(item string, replay []int, isReplay bool, journal func([]int)) mc.ItemResult {
 	switch {
-	case strings.HasPrefix(item, "seq|"):
+	case strings.HasPrefix(item, "seq|"), strings.HasPrefix(item, "seqf|"):
 		return seqItem(item, replay, isReplay)
 	case strings.HasPrefix(item, "conc|"):
 		return concItem(item, replay, isReplay, journal)
@@ -943,6 +956,12 @@ func main() {
 		items = append(items, fmt.Sprintf("seq|%d|1|", size))
 	}
 	items = append(items, "seq|0|0|")
+	// (a') the same sequences over a sink whose Sync reports an error while Write works
+	for _, size := range []int{1, 4} {
+		for a := 0; a < nOps; a++ {
+			items = append(items, fmt.Sprintf("seqf|%d|%d|%d", size, depth-1, a))
+		}
+	}
 	// (d) two syncers in one process: independent ones of the same size, and one buffering in front of the other
 	mdepth := 6
 	if thorough {
@@ -1043,6 +1062,7 @@ func main() {
 	run.Assume = []string{
 		"scheduling points at synchronisation operations only (lock, channel, select, go); data-race freedom of the same code is C09's subject",
 		"crash = process death (SIGKILL); torn OS-level writes are below zap",
+		"the sequential alphabet is also run (sizes 1 and 4, one level shallower) over a sink whose Sync reports an error while its Write works (stdout on a terminal): Sync hands the error on, ticks keep being processed, everything else as with a healthy sink",
 		"several syncers: every history of <= the stated length over two syncers of the same size with their own sinks, and over a syncer buffering in front of another one that is also written to directly (Write / Sync / Stop on either, no instance stopped twice); buffers larger than a history's bytes, so bytes move only in Sync and Stop; after every step each sink holds exactly its own bytes in acceptance order",
 		"Go 1.23 runtime channel header layout (validated at start-up by vsched.SelfTest)",
 	}
